@@ -109,6 +109,23 @@ def predicate(ctx, optic, case, rec, w):
                     zb, _ = specgeom.shape(g, float(back[0]), float(back[1]))
                     if zb is not None and abs(back[2] - zb) <= 1e-4:
                         key = 'nr-backward-intersection'
+                    elif abs(dloc[2]) > 1e-12:
+                        # the code's iteration  p <- p - (p.z - sag(p.x, p.y)) / N * d  (started on the base sphere)
+                        # contracts slowly, or not at all, for steep rays far from the axis; after max_iter sweeps the
+                        # unconverged iterate is returned as the intersection (finding F22b).  Recognised when the same
+                        # iteration, run here with the independent sag for this ray alone, is still outside the
+                        # tolerance after max_iter sweeps and ends at the recorded point.
+                        q = nr_replay(g, loc0, dloc)
+                        if q is not None and (np.linalg.norm(q - back) <= 1e-6 * max(1.0, float(np.linalg.norm(back)))
+                                              or float((q - loc0) @ dloc) < -1e-9):
+                            # F22 again: the solver ended behind the ray (whether converged or not) and the norm
+                            # walked the ray forward by that distance
+                            key = 'nr-backward-intersection'
+                        elif q is not None:
+                            zs, _g = specgeom.shape(g, float(q[0]), float(q[1]))
+                            if zs is not None and abs(q[2] - zs) >= float(g.tol) and \
+                                    np.linalg.norm(q - loc) <= 1e-6 * max(1.0, float(np.linalg.norm(loc))):
+                                key = 'nr-not-converged'
                 elif name == 'StandardGeometry':
                     a = kk * dloc[2] ** 2 + dloc[0] ** 2 + dloc[1] ** 2 + dloc[2] ** 2
                     if abs(a) < 1e-5 and abs(loc[2] - z_true) < 1e-2:
@@ -192,6 +209,39 @@ def gen_cases(ctx):
         out.append({'desc': d, 'Hy': rng.choice([0.0, 1.0, -1.0, rng.uniform(-1, 1)]), 'nray': nray,
                     'seed': rng.randint(0, 10 ** 9), 'wi': rng.randint(0, 2)})
     return out
+
+
+def nr_replay(g, p0, d):
+    """NewtonRaphsonGeometry.distance for one ray in the local frame, with the independent sag of specgeom:
+    start on the base sphere (root nearest the vertex plane among the forward ones), max_iter sweeps"""
+    R = float(g.radius)
+    a = float(d @ d)
+    b = 2 * d[0] * p0[0] + 2 * d[1] * p0[1] - 2 * d[2] * R + 2 * d[2] * p0[2]
+    c = p0[0] ** 2 + p0[1] ** 2 + p0[2] ** 2 - 2 * R * p0[2]
+    if math.isinf(R):
+        if d[2] == 0:
+            return None
+        t = -p0[2] / d[2]
+    else:
+        disc = b * b - 4 * a * c
+        if disc < 0:
+            return None
+        t1, t2 = (-b + math.sqrt(disc)) / (2 * a), (-b - math.sqrt(disc)) / (2 * a)
+        t1 = math.inf if t1 < 0 else t1
+        t2 = math.inf if t2 < 0 else t2
+        z1, z2 = p0[2] + t1 * d[2], p0[2] + t2 * d[2]
+        if not (abs(z1) <= abs(z2) or abs(z2) <= abs(z1)):
+            return None
+        t = t1 if abs(z1) <= abs(z2) else t2
+    if not math.isfinite(t):
+        return None
+    q = np.array(p0, dtype=float) + t * np.array(d, dtype=float)
+    for _ in range(int(g.max_iter)):
+        zs, _g = specgeom.shape(g, float(q[0]), float(q[1]))
+        if zs is None or not np.all(np.isfinite(q)):
+            return None
+        q = q - (q[2] - zs) / d[2] * np.array(d, dtype=float)
+    return q
 
 
 def run_cases(ctx, cases, drv, with_predicate=True, fields=realenc.FIELDS):
